@@ -451,6 +451,9 @@ func (handler *prewrite1BatchReqHandler) handleRegionErr(regionErr *errorpb.Erro
 		// It means the transaction's commit state is unknown.
 		// We should return the error `ErrResultUndetermined` to the caller
 		// to for further handling (.i.e disconnect the connection).
+		// Record it like a lost response, so that the clean-up of the failed commit does not roll back keys of a
+		// transaction that other clients may already resolve as committed.
+		handler.committer.setUndeterminedErr(errors.New(regionErr.String()))
 		return false, errors.WithStack(tikverr.ErrResultUndetermined)
 	}
 
